@@ -148,6 +148,10 @@ func (a *apCtx) ap0(v ssa.Value) string {
 		return b + "[*]"
 	case *ssa.UnOp:
 		if x.Op == token.MUL {
+			// a parameter captured by a closure is read back from the heap cell go/ssa spills it into
+			if p := paramBehind(x); p != ssa.Value(x) {
+				return a.ap(p)
+			}
 			return a.ap(x.X)
 		}
 	case *ssa.MakeSlice, *ssa.MakeMap:
@@ -431,7 +435,7 @@ func marshalSuppresses(c *Ctx, ci condIssue) string {
 		}
 		var recvCopy *ssa.Alloc
 		for _, r := range refs(fn.Params[0]) {
-			if st, ok := r.(*ssa.Store); ok && st.Val == ssa.Value(fn.Params[0]) {
+			if st, ok := r.(*ssa.Store); ok && sameParam(st.Val, fn.Params[0]) {
 				recvCopy, _ = st.Addr.(*ssa.Alloc)
 			}
 		}
@@ -954,7 +958,7 @@ func c20Redactor(c *Ctx) {
 		s, _ = constString(k)
 	}
 	base, _ := st.Addr.(*ssa.FieldAddr)
-	c.Check("C20.R2", fk+":placeholder", st.Pos(), isConst && s != "" && base != nil && base.X == ssa.Value(fn.Params[0]), "stores constant placeholder "+s+" through the parameter", "redactTLSConfig does not overwrite the parameter's PrivateKey with a constant placeholder")
+	c.Check("C20.R2", fk+":placeholder", st.Pos(), isConst && s != "" && base != nil && sameParam(base.X, fn.Params[0]), "stores constant placeholder "+s+" through the parameter", "redactTLSConfig does not overwrite the parameter's PrivateKey with a constant placeholder")
 	// the store is skipped only when PrivateKey == "" (or tls == nil)
 	okGuard := true
 	for _, g := range guardsAt(st.Block()) {
@@ -1095,6 +1099,7 @@ func (fr *freshCtx) fresh(v ssa.Value, at ssa.Instruction, depth int) (bool, int
 	if depth > 12 {
 		return false, -1
 	}
+	v = paramBehind(v) // a parameter read back from the cell a closure capture spills it into
 	switch x := v.(type) {
 	case *ssa.Alloc, *ssa.MakeSlice, *ssa.MakeMap:
 		return true, -1
@@ -1151,6 +1156,7 @@ func (fr *freshCtx) paramRoot(v ssa.Value, depth int) int {
 	if depth > 12 {
 		return -1
 	}
+	v = paramBehind(v)
 	switch x := v.(type) {
 	case *ssa.Parameter:
 		for i, p := range fr.fn.Params {
